@@ -499,6 +499,52 @@ def should_run_item():
             "Definition gen_should_run (sel_none al_none vc_none same_commit older : bool) : bool := %s.\n" % expr)
 
 
+def _find_function(relpath, name):
+    tree = ast.parse(open(os.path.join(SRC, relpath), encoding="utf-8").read())
+    for node in tree.body:
+        if isinstance(node, ast.FunctionDef) and node.name == name:
+            return node
+    raise Unsupported("%s: no function %s" % (relpath, name))
+
+
+def validate_args_item():
+    """cli/run.py validate_args: which flag combination is rejected, with which error class, in which order"""
+    f = _find_function("conductor/cli/run.py", "validate_args")
+    body = _body_without_docstring(f)
+    env = {"args.this_commit": "this_commit", "args.at_least is not None": "at_least_some", "args.again": "again",
+           "ctx.uses_git": "uses_git", "ctx.current_commit is None": "(negb has_commit)", "ctx.current_commit is not None": "has_commit"}
+
+    def cond(node):
+        src = ast.unparse(node)
+        if src in env:
+            return env[src]
+        if isinstance(node, ast.UnaryOp) and isinstance(node.op, ast.Not):
+            return "(negb %s)" % cond(node.operand)
+        if isinstance(node, ast.BoolOp):
+            op = {ast.And: " && ", ast.Or: " || "}[type(node.op)]
+            return "(" + op.join(cond(v) for v in node.values) + ")"
+        raise Unsupported("condition outside the supported fragment: %s" % src)
+
+    def block(stmts):
+        if not stmts:
+            return "None"
+        st, rest = stmts[0], stmts[1:]
+        src = ast.unparse(st)
+        if isinstance(st, ast.Assign) and len(st.targets) == 1 and isinstance(st.targets[0], ast.Name):
+            env[st.targets[0].id] = cond(st.value)
+            return block(rest)
+        if isinstance(st, ast.If) and not st.orelse and len(st.body) == 1 and isinstance(st.body[0], ast.Raise):
+            exc = st.body[0].exc
+            if not (isinstance(exc, ast.Call) and isinstance(exc.func, ast.Name) and not exc.args and not exc.keywords and st.body[0].cause is None):
+                raise Unsupported("raise outside the supported fragment: %s" % ast.unparse(st.body[0]))
+            return "(if %s then Some %s (* %s *) else %s)" % (cond(st.test), coq_str(exc.func.id), exc.func.id, block(rest))
+        raise Unsupported("statement outside the supported fragment: %s" % src)
+
+    expr = block(body)
+    return ("(* conductor/cli/run.py validate_args: the error class raised, by name *)\n"
+            "Definition gen_validate_args (this_commit at_least_some again uses_git has_commit : bool) : option (list N) := %s.\n" % expr)
+
+
 def version_item():
     """VersionIndex.generate_new_output_version: the timestamp as a function of the clock and the last timestamp"""
     f = _find_method("conductor/execution/version_index.py", "VersionIndex", "generate_new_output_version")
@@ -563,7 +609,7 @@ def generate():
         failures["task_type_table"] = "%s: %s" % (type(ex).__name__, ex)
         parts.append("(* task_type_table: NOT TRANSLATED: %s *)\n" % str(ex).replace("*)", "* )"))
     for coqname, fn in (("gen_gate_open", gate_item), ("gen_new_version", version_item), ("gen_loop_goes_on", loop_item), ("gen_wants_slot", slot_item),
-                        ("gen_prune", prune_item), ("gen_should_run", should_run_item)):
+                        ("gen_prune", prune_item), ("gen_should_run", should_run_item), ("gen_validate_args", validate_args_item)):
         try:
             parts.append(fn())
         except Exception as ex:  # pylint: disable=broad-except
